@@ -92,6 +92,18 @@ func corpus() []Case {
 			{Txs: []TxSpec{{Kind: "claim", Asset: 0, In: []Ref{{0, 1, 0}}, Claim: &Ref{Step: 1, Tx: 0}, Outs: []OutSpec{
 				{Type: "claim", Amount: "0.0001"}, {Type: "script", Amount: "499.9999", To: 1, Seed: "rf-k"}}}}},
 		}},
+		{Name: "corpus-recorded-asset-key-in-another-letter-case-chain-or-length", Steps: []StepSpec{
+			// first deposit records the checksummed (mixed case) ERC20 key; later deposits of the same
+			// asset id carry it lower case, upper case, one letter flipped, on another chain, one byte longer:
+			// validation must refuse each (finalization compares byte for byte)
+			{Txs: []TxSpec{dep(4, "10", "ck-a", 0, "ck-a")}},
+			{Txs: []TxSpec{{Kind: "deposit", Asset: 4, Amount: "1", DepTx: "ck-b", Info: 2, Outs: []OutSpec{{Type: "script", Amount: "1", To: 0, Seed: "ck-b"}}}}},
+			{Txs: []TxSpec{{Kind: "deposit", Asset: 4, Amount: "1", DepTx: "ck-c", Info: 3, Outs: []OutSpec{{Type: "script", Amount: "1", To: 0, Seed: "ck-c"}}}}},
+			{Txs: []TxSpec{{Kind: "deposit", Asset: 4, Amount: "1", DepTx: "ck-d", Info: 4, Outs: []OutSpec{{Type: "script", Amount: "1", To: 0, Seed: "ck-d"}}}}},
+			{Txs: []TxSpec{{Kind: "deposit", Asset: 4, Amount: "1", DepTx: "ck-e", Info: 5, Outs: []OutSpec{{Type: "script", Amount: "1", To: 0, Seed: "ck-e"}}}}},
+			{Txs: []TxSpec{{Kind: "deposit", Asset: 4, Amount: "1", DepTx: "ck-f", Info: 6, Outs: []OutSpec{{Type: "script", Amount: "1", To: 0, Seed: "ck-f"}}}}},
+			{Txs: []TxSpec{dep(4, "2", "ck-g", 1, "ck-g"), dep(0, "3", "ck-h", 1, "ck-h")}},
+		}},
 		{Name: "corpus-mint-then-deposits", Steps: []StepSpec{
 			{Direct: true, Txs: []TxSpec{{Kind: "mint", Asset: 0, Amount: "5000", Batch: 1, Outs: []OutSpec{{Type: "script", Amount: "5000", To: 0, Seed: "mint-a"}}}}},
 			{Txs: []TxSpec{dep(0, "100", "mt-a", 0, "mt-a"), dep(2, "59999", "mt-b", 1, "mt-b")}},
@@ -118,9 +130,9 @@ func (h *hist) seed() string {
 }
 
 func (h *hist) genDeposit(r *vh.Rand) TxSpec {
-	asset := []int{0, 0, 0, 0, 1, 1, 2, 3}[r.Intn(8)]
+	asset := []int{0, 0, 0, 0, 1, 1, 2, 3, 4, 4}[r.Intn(10)]
 	rem := h.remaining(asset)
-	if asset == 3 {
+	if asset >= 3 {
 		rem = new(big.Int).Mul(big.NewInt(1000000), big.NewInt(100000000))
 	}
 	var units *big.Int
@@ -141,8 +153,8 @@ func (h *hist) genDeposit(r *vh.Rand) TxSpec {
 	amt := decimal(units)
 	sp := TxSpec{Kind: "deposit", Asset: asset, Amount: amt, DepTx: "dep-" + h.seed(), DepIdx: uint64(r.Intn(3)),
 		Outs: []OutSpec{{Type: "script", Amount: amt, To: r.Intn(4), Seed: h.seed()}}}
-	if r.Chance(1, 25) {
-		sp.Info = 1
+	if r.Chance(1, 10) { // another key, another letter case, another chain, a trailing byte
+		sp.Info = 1 + r.Intn(6)
 	}
 	if r.Chance(1, 25) {
 		sp.BadSig = true
